@@ -43,6 +43,7 @@ Defs == {
   Def("twice_lit", "Given", "regex", "^twice$"),                   \* the same fn `twice` under two attributes
   Def("twice", "Then", "regex", "^twice (\\d+)$"),
   Def("okres", "Given", "regex", "^okres$"),
+  Def("opts", "When", "regex", "^opts (\\w*) (\\w*)(?: (\\w+))?$"),   \* slice argument, captures may be empty
   Def("calc", "When", "expr", "calc \\(x\\) {word}") }              \* escaped parentheses
 
 \* M(fn, text): the matcher of fn matches text; call = what the function records when all
@@ -90,6 +91,9 @@ Matches == {
   M("twice_lit", "twice", "twice()", TRUE),
   M("twice", "twice 4", "twice(4)", TRUE),
   M("okres", "okres", "okres()", TRUE),
+  M("opts", "opts a b c", "opts(a,b,c)", TRUE),
+  M("opts", "opts  b", "opts(,b,)", TRUE),          \* an empty capture and a group that did not participate stay in the slice
+  M("opts", "opts a ", "opts(a,,)", TRUE),
   M("calc", "calc (x) y", "calc(y)", TRUE) }
 
 Texts == {m.text : m \in Matches} \cup
